@@ -27,7 +27,8 @@ Form(loc, kind) ==
   CASE kind = "str" -> "tok" [] kind = "int" -> "7" [] kind = "float" -> "1.5"
     [] kind = "bool" -> IF loc = "path" THEN "True" ELSE "true"      \* str(True) in the path (sic), "true" elsewhere
     [] kind = "enum" -> "a" [] kind = "date" -> "2020-01-02" [] kind = "uuid" -> "uuid"
-    [] kind = "list" -> "x,y"                                        \* repeated key: n=x&n=y
+    [] kind \in {"list", "listform"} -> "x,y"                        \* repeated key: n=x&n=y ("listform": the default `style: form` written out -
+                                                                     \* its `explode` defaults to true, so the wire form is the same)
     [] OTHER -> "?"
 
 VARIABLES op, args,      \* the operation and the set of indices of supplied optional parameters
